@@ -272,6 +272,12 @@ def clte(u: U):
                                           Implies(conn in (None, "Upgrade", "Keep-alive"), close is None)),
                 "Connection: close / keep-alive tokens are recognised ASCII-case-insensitively; anything else leaves the default")
         u.check("C01.clte.encoding", enc in (None, "gzip", "GZIP"), "only known content codings are reported")
+        sent = vals["Content-Encoding"]
+        u.check("C02.encoding.canonical", enc == ("gzip" if sent in ("gzip", "GZIP") else None),
+                "content codings are case-insensitive (RFC 9110 8.4.1): a known coding is recognised in any case and "
+                "reported in the lower-case form the body decoder dispatches on (DeflateBuffer / ZLibDecompressor compare "
+                "with 'gzip', 'deflate', 'br', 'zstd' exactly) - 'Content-Encoding: GZip' must not reach it as 'GZip'",
+                known=[("F2c", sent == "GZIP")], witness={"content_encoding": sent, "reported": enc})
     else:
         u.check("C10.escape.http_parse_headers", isinstance(out.exc, E.HttpProcessingError), f"got {out.exc!r}")
 
